@@ -3,7 +3,7 @@ CONSTANTS
   NReq = 4
   Caps = {1, 2, 3, 4}
   Kinds = {"read", "write"}
-  WhoPats = {"same", "alt"}
+  WhoPats = {"alt"}
   Quiets = {TRUE, FALSE}
 INVARIANT TypeOK
 INVARIANT InOrder
